@@ -216,7 +216,9 @@ def hashable_rows(
             hashable = np.zeros(len(as_int), dtype=np.uint64)
             # offset to the middle of the unsigned integer range
             # this array should contain only positive values
-            bitbang = (as_int.T + (threshold + 1)).astype(np.uint64)
+            # add as unsigned: for a single column the offset is
+            # 2**63 which does not fit in a signed 64 bit integer
+            bitbang = as_int.T.astype(np.uint64) + np.uint64(threshold + 1)
             # loop through each column and bitwise xor to combine
             # make sure as_int is int64 otherwise bit offset won't work
             for offset, column in enumerate(bitbang):
